@@ -214,60 +214,101 @@ def rule_hidden(P) -> RuleResult:
 # R-VISFILTER (C07, C08)
 
 def rule_visfilter(P) -> RuleResult:
+    """What a compiled query shows of itself is its visible targets only, in order: EvalQuery.columns and the subquery table, decided
+    on terms with hidden targets between and after the visible ones (the executor's own projection is R-PIPELINE)."""
+    from ..symex import Sym as _S, T as _T, SList as _L, Engine as _E, show as _sh
     res = RuleResult('R-VISFILTER')
-    n_sites = 0
-    for mod in (QX, QC):
-        m = P.module(mod)
-        for fi in m.functions.values():
-            for n in ast.walk(fi.node):
-                if not isinstance(n, (ast.ListComp, ast.GeneratorExp, ast.SetComp, ast.DictComp)):
-                    continue
-                g = n.generators[0]
-                it = g.iter
-                enumerated = False
-                if isinstance(it, ast.Call) and unparse(it.func) == 'enumerate' and it.args:
-                    it = it.args[0]
-                    enumerated = True
-                if not (isinstance(it, ast.Attribute) and it.attr == 'c_targets'):
-                    continue
-                # nested comprehension handled at its own level
-                n_sites += 1
-                tv = g.target.elts[-1] if isinstance(g.target, ast.Tuple) else g.target
-                tvn = unparse(tv)
-                filt = [f for f in g.ifs if unparse(f) in (f'{tvn}.name is not None', f'{tvn}.name')]
-                elt = n.elt if not isinstance(n, ast.DictComp) else n.value
-                construct = f'{fi.fq}:{unparse(elt)[:40]}'
-                if filt:
-                    res.ok({'site': fi.fq, 'over': unparse(it), 'filter': unparse(filt[0])})
-                elif unparse(elt) == f'{tvn}.c_expr':
-                    res.ok({'site': fi.fq, 'over': unparse(it), 'projects': 'all target expressions (evaluation list)'})
-                else:
-                    res.fail(construct, 'visfilter:unfiltered',
-                             f'`{unparse(n)[:90]}` derives output from all compiled targets without excluding the invisible '
-                             f'helper targets (name None)', loc(fi, n))
-    if n_sites < 4:
-        raise AnalysisError(f'only {n_sites} consumers of c_targets found')
-    # SubqueryTable: the positional index ranges over the *visible* targets
+    eq = P.cls(QC, 'EvalQuery')
+    cols = eq.methods.get('columns')
+    if cols is None:
+        raise AnalysisError('anchor vanished: EvalQuery.columns')
+    Q = _S('QUERY')
+    names = {_S('T0'): 'a', _S('H'): None, _S('T1'): 'b', _S('H2'): None}
+    order = list(names)
+
+    def on_attr(base, attr, ex):
+        if base == Q and attr == 'c_targets':
+            return _L(list(order))
+        if base in names and attr == 'name':
+            return names[base]
+        return NotImplemented
+    for p in _E(P, on_attr=on_attr).paths(cols, {'self': Q}):
+        v = p.value
+        items = list(v.items) if isinstance(v, _L) and not v.opaque_tail and not v.tail else \
+            list(v.args) if isinstance(v, _T) and v.op == 'tuple' else None
+        if p.outcome == 'return' and not p.decisions and items == [t for t in order if names[t] is not None]:
+            res.ok({'site': cols.fq, 'targets': ['a', None, 'b', None], 'columns': ['a', 'b']})
+        else:
+            res.fail(cols.fq, 'visfilter:unfiltered', f'EvalQuery.columns must be the visible targets (those with a name) in their '
+                     f'order; with targets named a, (hidden), b, (hidden) it gives `{_sh(v)[:80]}`', loc(cols))
+    _visfilter_subquery(P, res)
+    return res
+
+
+def _visfilter_subquery(P, res):
+    """SubqueryTable on terms: with a hidden inner target between two visible ones, every visible name maps to a column built from
+    its position among the *visible* targets and its own data type; the rows are the result rows of that same subquery."""
+    from ..symex import Sym as _S, T as _T, SList as _L, Engine as _E, show as _sh
     st = P.cls(QC, 'SubqueryTable')
     init = st.methods.get('__init__')
     if init is None:
         raise AnalysisError('anchor vanished: SubqueryTable.__init__')
-    loops = [n for n in ast.walk(init.node) if isinstance(n, ast.For)]
-    if len(loops) != 1 or not (isinstance(loops[0].iter, ast.Call) and unparse(loops[0].iter.func) == 'enumerate'):
-        raise AnalysisError(f'{init.fq}: enumerate loop not found')
-    arg = loops[0].iter.args[0]
-    if isinstance(arg, ast.GeneratorExp) and arg.generators[0].ifs and '.name' in unparse(arg.generators[0].ifs[0]):
-        idx = unparse(loops[0].target.elts[0])
-        col_calls = [n for n in ast.walk(loops[0]) if isinstance(n, ast.Call) and unparse(n.func) == 'self.column']
-        if col_calls and unparse(col_calls[0].args[0]) == idx:
-            res.ok({'site': init.fq, 'index': 'position among the visible targets'})
+    SELF, SUB = _S('SELF'), _S('SUBQ')
+    # a mixed-case name (names are expression texts), a hidden target in between, a repeated name, a hidden target at the end
+    names = {_S('T0'): 'Sum(a)', _S('H'): None, _S('T1'): 'b', _S('T2'): 'Sum(a)', _S('T3'): 'c', _S('H2'): None}
+    order = list(names)
+    visible = [t for t in order if names[t] is not None]
+
+    def on_attr(base, attr, ex):
+        if base == SUB and attr == 'c_targets':
+            return _L(list(order))
+        if base == SUB and attr == 'columns':
+            # EvalQuery.columns: the visible targets
+            return _L(list(visible))
+        if base in names and attr == 'name':
+            return names[base]
+        return NotImplemented
+
+    def on_call(fname, fval, recv, args, kw, ex, node):
+        if recv == SELF and isinstance(fname, str) and fname.endswith('.column'):
+            return _T('colclass', tuple(args))
+        if isinstance(fval, _T) and fval.op == 'colclass':
+            return _T('colinst', fval.args)
+        return NotImplemented
+
+    # a later target of the same name replaces the earlier one; positions count every visible target
+    want = {}
+    for i, t in enumerate(visible):
+        want[names[t]] = _T('colinst', (i, names[t], _T('attr', (_T('attr', (t, 'c_expr')), 'dtype'))))
+    for p in _E(P, on_attr=on_attr, on_call=on_call).paths(init, {'self': SELF, 'subquery': SUB}):
+        if p.decisions or p.outcome == 'raise':
+            res.fail(init.fq, 'visfilter:subquery-index', f'SubqueryTable.__init__ does not run straight through on concrete targets '
+                     f'({p.outcome}, {[_sh(d[0])[:40] for d in p.decisions]})', loc(init))
+            continue
+        cols = p.heap.get(_T('attr', (SELF, 'columns')))
+        got = None
+        if isinstance(cols, _L) and cols.kind == "dict" and not cols.tail and not cols.opaque_tail:
+            got = {k: v for k, v in cols.items}
+        if cols is None:
+            res.fail(init.fq, 'visfilter:subquery-index', 'SubqueryTable.__init__ does not create the column mapping of this table: the '
+                     'columns it registers go into a mapping that other subquery tables share, so a table shows columns its inner '
+                     'query does not have', loc(init))
+            continue
+        if got is None:
+            raise AnalysisError(f'{init.fq}: self.columns is not a concrete mapping on terms: {_sh(cols)[:80]}')
+        if got == want:
+            res.ok({'site': init.fq, 'targets': [names[t] for t in order], 'columns': {k: _sh(v) for k, v in got.items()}})
+        elif set(got) != set(want):
+            res.fail(init.fq, 'visfilter:subquery-index', f'the columns of a subquery table must be the visible targets of the inner query; '
+                     f'targets named {[names[t] or "(hidden)" for t in order]} give columns {sorted(map(str, got))}', loc(init))
         else:
-            res.fail(init.fq, 'visfilter:subquery-index', 'the accessor of a subquery column is not built from its position among '
-                     'the visible targets', loc(init))
-    else:
-        res.fail(init.fq, 'visfilter:subquery-index',
-                 'subquery columns are numbered over all targets of the inner query; its result rows hold the visible ones only, '
-                 'so a hidden inner target shifts the columns', loc(init))
+            bad = [k for k in want if got[k] != want[k]]
+            k = bad[0]
+            res.fail(init.fq, 'visfilter:subquery-index',
+                     f'the result rows of the inner query hold the visible targets only, so column {k!r} must read its position among the '
+                     f'visible targets with its own data type: want {_sh(want[k])}, found {_sh(got[k])[:80]}', loc(init))
+        if p.heap.get(_T('attr', (SELF, 'subquery'))) != SUB:
+            res.fail(init.fq, 'visfilter:subquery-rows', 'SubqueryTable does not keep the subquery it was built from', loc(init))
     # the column accessor reads exactly position i
     colf = st.methods.get('column')
     if colf is not None:
@@ -278,12 +319,33 @@ def rule_visfilter(P) -> RuleResult:
             res.info('SubqueryTable.column: accessor shape not recognised (not judged)')
     # rows come from execute_query on the same subquery
     it_ = st.methods.get('__iter__')
-    if it_ is None or 'execute_query(self.subquery)' not in unparse(it_.node):
+    if it_ is None:
         res.fail(st.fq + '.__iter__', 'visfilter:subquery-rows', 'the rows of a subquery table must be the result rows of that subquery',
                  loc(st))
-    else:
-        res.ok({'site': st.fq + '.__iter__', 'rows': 'execute_query(self.subquery)'})
-    return res
+        return
+    COLS, ROWS = _S('COLS'), _S('ROWS')
+    seen = []
+
+    def on_call2(fname, fval, recv, args, kw, ex, node):
+        if isinstance(fname, str) and fname.split('.')[-1] == 'execute_query':
+            seen.append(tuple(args))
+            return _L([COLS, ROWS], kind='tuple')
+        return NotImplemented
+
+    def on_attr2(base, attr, ex):
+        if base == SELF and attr == 'subquery':
+            return SUB
+        return NotImplemented
+
+    for p in _E(P, on_attr=on_attr2, on_call=on_call2).paths(it_, {'self': SELF}):
+        v = p.value
+        while isinstance(v, _T) and v.op == 'call' and v.args[0] in ('iter', 'list', 'tuple') and len(v.args[1]) == 1:
+            v = v.args[1][0]
+        if p.outcome == 'return' and v == ROWS and seen and all(a[:1] == (SUB,) for a in seen):
+            res.ok({'site': it_.fq, 'rows': 'the rows of execute_query(self.subquery)'})
+        else:
+            res.fail(st.fq + '.__iter__', 'visfilter:subquery-rows', f'the rows of a subquery table must be the result rows of that '
+                     f'subquery; found `{_sh(p.value)[:80]}` after execute_query{[tuple(_sh(x) for x in a) for a in seen]}', loc(it_))
 
 
 # ----------------------------------------------------------------------
@@ -844,37 +906,45 @@ def rule_wildcard(P) -> RuleResult:
 
 
 def rule_nameslice(P) -> RuleResult:
+    """Node.text is exactly the slice [pos:endpos] of the text its own parse info refers to (or None without parse info):
+    decided on the terms the property returns."""
+    from ..symex import Sym as _S, T as _T, Engine as _E, show as _sh
     res = RuleResult('R-NAMESLICE')
+    res.exhaustive = True
     node = P.cls('beanquery.parser.ast', 'Node')
     text = node.methods.get('text')
     if text is None:
         raise AnalysisError('anchor vanished: parser.ast.Node.text')
-    subs = [n for n in ast.walk(text.node) if isinstance(n, ast.Subscript) and isinstance(n.slice, ast.Slice)]
-    if len(subs) != 1:
-        raise AnalysisError(f'{text.fq}: slice of the statement text not found')
-    sl = subs[0].slice
-    # the property's value is the slice itself: nothing may be done to the text that was cut out
-    rets = [n for n in ast.walk(text.node) if isinstance(n, ast.Return) and n.value is not None and not is_none(n.value)]
-    for r in rets:
-        v = r.value
-        if isinstance(v, ast.Name):
-            d = [n for n in ast.walk(text.node) if isinstance(n, ast.Assign) and unparse(n.targets[0]) == v.id]
-            v = d[-1].value if d else v
-        if v is not subs[0]:
-            res.fail(text.fq, 'nameslice:exact', f'the name of an expression target is the exact source text of the expression; '
-                     f'Node.text returns `{unparse(r.value)}` instead of the slice of the statement text', loc(text, r))
-            return res
-    lo, hi = unparse(sl.lower) if sl.lower else '', unparse(sl.upper) if sl.upper else ''
-    if sl.step is None and lo.endswith('.pos') and hi.endswith('.endpos') and lo[:-4] == hi[:-7]:
-        base = unparse(subs[0].value)
-        defs = [n for n in ast.walk(text.node) if isinstance(n, ast.Assign) and unparse(n.targets[0]) == base]
-        src = unparse(defs[0].value) if defs else base
-        if src.startswith(lo[:-4]) and src.endswith('.tokenizer.text'):
-            res.ok({'property': text.fq, 'slice': f'[{lo}:{hi}] of {src}'})
-        else:
-            res.fail(text.fq, 'nameslice:text', f'the expression text is cut from `{src}`, not from the text its own positions refer to', loc(text))
-    else:
-        res.fail(text.fq, 'nameslice:bounds', f'the source text of a node must be text[pos:endpos] of its own parse info; found [{lo}:{hi}]', loc(text))
+    N = _S('NODE')
+    PI = _T('attr', (N, 'parseinfo'))
+    want = _T('slice', (_T('attr', (_T('attr', (PI, 'tokenizer')), 'text')), _T('attr', (PI, 'pos')), _T('attr', (PI, 'endpos'))))
+    for has in (True, False):
+        def oracle(term, ex, _h=has):
+            if term == PI:
+                return _h
+            if isinstance(term, _T) and term.op == 'cmp' and term.args[0] in ('is', 'is not') and term.args[1] == PI and term.args[2] is None:
+                return (not _h) == (term.args[0] == 'is')
+            return None
+        for p in _E(P, oracle=oracle).paths(text, {'self': N}):
+            if p.decisions:
+                res.fail(text.fq, 'nameslice:exact', f'Node.text branches on `{_sh(p.decisions[0][0])[:60]}`', loc(text))
+                continue
+            if has:
+                if p.value == want:
+                    res.ok({'property': text.fq, 'value': 'parseinfo.tokenizer.text[parseinfo.pos:parseinfo.endpos]'})
+                elif isinstance(p.value, _T) and p.value.op == 'slice' and p.value.args[0] == want.args[0]:
+                    res.fail(text.fq, 'nameslice:bounds', f'the source text of a node must be text[pos:endpos] of its own parse info; found '
+                             f'`{_sh(p.value)[:120]}`', loc(text))
+                elif isinstance(p.value, _T) and p.value.op == 'slice':
+                    res.fail(text.fq, 'nameslice:text', f'the expression text is cut from `{_sh(p.value.args[0])[:80]}`, not from the text its own '
+                             f'positions refer to', loc(text))
+                else:
+                    res.fail(text.fq, 'nameslice:exact', f'the name of an expression target is the exact source text of the expression; '
+                             f'Node.text returns `{_sh(p.value)[:120]}` instead of the slice of the statement text', loc(text))
+            elif p.value is not None:
+                res.fail(text.fq, 'nameslice:none', f'without parse info Node.text must be None; it is `{_sh(p.value)[:80]}`', loc(text))
+            else:
+                res.ok({'property': text.fq, 'without_parseinfo': None})
     return res
 
 
